@@ -62,11 +62,21 @@ def scratch_root():
     return base
 
 
+_SANDBOX_DEPTH = [0]
+
+
 @contextlib.contextmanager
 def sandbox(prefix='ctmv_'):
     """a fresh directory outside /repo and /verif; tempfile.tempdir is
     redirected inside it so the library's system-temp fall-backs are observed"""
-    root = pathlib.Path(tempfile.mkdtemp(prefix=prefix, dir=scratch_root()))
+    # The directory NAME is fixed per process (and nesting depth) and re-created for every case, so the very same
+    # file paths recur with different contents from case to case within a shard process: a result that
+    # depends on state the library carried over from an earlier call (a cache keyed by path, a module-level
+    # table) then shows up as an ordinary oracle failure.
+    _SANDBOX_DEPTH[0] += 1
+    root = pathlib.Path(scratch_root()) / f'{prefix}p{os.getpid()}_d{_SANDBOX_DEPTH[0]}'
+    shutil.rmtree(root, ignore_errors=True)
+    root.mkdir(parents=True)
     old = tempfile.tempdir
     systmp = root / 'systmp'
     systmp.mkdir()
@@ -75,6 +85,7 @@ def sandbox(prefix='ctmv_'):
         yield root
     finally:
         tempfile.tempdir = old
+        _SANDBOX_DEPTH[0] -= 1
         shutil.rmtree(root, ignore_errors=True)
 
 
@@ -150,6 +161,8 @@ def shard_main(argv):
            'excluded': 0, 'enumerated': 0, 'enum_total': 0,
            'harness_error': None, 'info': {}}
 
+    prev = {'spec': None, 'hist': []}
+
     def record(spec, res):
         out['evaluations'] += 1
         if res[0] == 'ok':
@@ -191,13 +204,14 @@ def shard_main(argv):
                     if kid:
                         out['known_hits'][kid] = out['known_hits'].get(kid, 0) + 1
                     else:
-                        out['violations'].append({'spec': spec, 'clause': res[1], 'detail': res[2]})
+                        out['violations'].append({'spec': spec, 'clause': res[1], 'detail': res[2], 'prev_specs': list(prev['hist'])})
                         break
+                prev['hist'] = (prev['hist'] + [spec])[-3:]
         # ---- generated part
         n_examples = mod.budget(tier)
         per = max(1, n_examples // n_shards) if n_examples else 0
         if per and not out['violations'] and hasattr(mod, 'strategy'):
-            _run_hypothesis(mod, pid, tier, seed, shard, per, out, record, t_start, budget_s)
+            _run_hypothesis(mod, pid, tier, seed, shard, per, out, record, t_start, budget_s, prev)
         # ---- stateful part
         if hasattr(mod, 'run_stateful') and not out['violations']:
             mod.run_stateful(tier, seed, shard, n_shards, out)
@@ -246,7 +260,8 @@ def derive_seed(seed, shard):
     return int(hashlib.sha256(f'{seed}:{shard}'.encode()).hexdigest()[:12], 16)
 
 
-def _run_hypothesis(mod, pid, tier, seed, shard, n, out, record, t_start, budget_s):
+def _run_hypothesis(mod, pid, tier, seed, shard, n, out, record, t_start, budget_s, prev=None):
+    prev = prev if prev is not None else {'spec': None, 'hist': []}
     import hypothesis
     from hypothesis import given, settings, HealthCheck, Phase
     failures = []
@@ -281,8 +296,12 @@ def _run_hypothesis(mod, pid, tier, seed, shard, n, out, record, t_start, budget
                 return
             if state['first_fail_t'] is None:
                 state['first_fail_t'] = time.time()
-            failures.append({'spec': spec, 'clause': res[1], 'detail': res[2]})
+            # the case evaluated just before is kept with the failure: a violation that needs state left by an
+            # earlier call in the same process is replayed as the two-step history (previous case, this case)
+            failures.append({'spec': spec, 'clause': res[1], 'detail': res[2], 'prev_specs': list(prev['hist'])})
+            prev['hist'] = (prev['hist'] + [spec])[-3:]
             raise AssertionError(res[1])
+        prev['hist'] = (prev['hist'] + [spec])[-3:]
 
     try:
         test()
@@ -302,6 +321,8 @@ def write_replay(pid, v):
     d = OUT_DIR / 'replays' / pid
     d.mkdir(parents=True, exist_ok=True)
     body = {'property': pid, 'clause': v['clause'], 'detail': v.get('detail'), 'spec': v['spec']}
+    if v.get('prev_specs'):
+        body['prev_specs'] = v['prev_specs']
     h = spec_hash(v['spec'])
     p = d / f'{h}.json'
     p.write_text(json.dumps(body, indent=1, default=str))
@@ -313,6 +334,15 @@ def run_replay(pid, path):
     body = json.loads(pathlib.Path(path).read_text())
     spec = body['spec'] if 'spec' in body else body
     res = eval_case(mod, spec)
+    if res[0] != 'violation' and isinstance(body, dict) and body.get('prev_specs'):
+        # not reproducible on its own: replay the short history (the cases evaluated just before, then this one);
+        # best effort - state left by cases further back is not recorded
+        for ps in body['prev_specs']:
+            try:
+                eval_case(mod, ps)
+            except Exception:
+                pass
+        res = eval_case(mod, spec)
     return res, spec
 
 
